@@ -2,7 +2,7 @@
   HLV.Logic.Contracts — one contract per algorithm, for every list of members, every mode,
   every admissible answer sequence (at most `n` panicking answers, `n` arbitrary).
 
-  `IsLock n L fp`: the `RawLock` methods of `L` behave like a lock with footprint `fp`:
+  `IsLock n ro L fp`: the `RawLock` methods of `L` behave like a lock with footprint `fp`:
   * `acq`: returns with exactly `fp m` added to the holds, or unwinds with the holds as before;
   * `try_`: same, or returns `false` with the ghost state unchanged;
   * `rel`: needs `fp m` held; afterwards (returning *or unwinding*) `fp m` is no longer held.
@@ -15,45 +15,49 @@ open Prog
 
 abbrev FpFun := Mode → Fp
 
-structure IsLock (n : Nat) (L : RawLockM) (fp : FpFun) : Prop where
+structure IsLock (n : Nat) (ro : RankOpt) (L : RawLockM) (fp : FpFun) : Prop where
   acq : ∀ (m : Mode) (g : HG) (Q : Unit → HG → Prop) (E : Unit → HG → Prop),
-    g.depth = 0 →
+    g.depth = 0 → LowFp ro g.held (fp m) →
     Q () { g with held := g.held.plus (fp m) } →
     (∀ g' : HG, g'.held = g.held → g'.depth = g.depth → g.panics < g'.panics → E () g') →
-    wp (HoldSpec n) (L.acq m) Q E g
+    wp (HoldSpec n ro) (L.acq m) Q E g
   try_ : ∀ (m : Mode) (g : HG) (Q : Bool → HG → Prop) (E : Unit → HG → Prop),
     Q true { g with held := g.held.plus (fp m) } →
     Q false g →
     (∀ g' : HG, g'.held = g.held → g'.depth = g.depth → g.panics < g'.panics → E () g') →
-    wp (HoldSpec n) (L.try_ m) Q E g
+    wp (HoldSpec n ro) (L.try_ m) Q E g
   rel : ∀ (m : Mode) (g : HG) (Q : Unit → HG → Prop) (E : Unit → HG → Prop),
     g.held.Covers (fp m) →
     Q () { g with held := g.held.minus (fp m) } →
     (∀ g' : HG, g'.held = g.held.minus (fp m) → g'.depth = g.depth → g.panics < g'.panics →
       E () g') →
-    wp (HoldSpec n) (L.rel m) Q E g
+    wp (HoldSpec n ro) (L.rel m) Q E g
 
-variable {n : Nat}
+variable {n : Nat} {ro : RankOpt}
 
-theorem isLock_rwLeaf (x : LockId) : IsLock n (rwLeaf x) (fun m => [(x, m)]) where
-  acq m g Q E hb hQ hE :=
-    rwLeaf_acq n x m Q E g hb hQ (fun _ => hE _ rfl rfl (by simp))
+theorem isLock_rwLeaf (x : LockId) : IsLock n ro (rwLeaf x) (fun m => [(x, m)]) where
+  acq m g Q E hb hl hQ hE :=
+    rwLeaf_acq n ro x m Q E g hb (hl (x, m) (by simp)) hQ (fun _ => hE _ rfl rfl (by simp))
   try_ m g Q E hQ hN hE :=
-    rwLeaf_try n x m Q E g hQ hN (fun _ => hE _ rfl rfl (by simp))
+    rwLeaf_try n ro x m Q E g hQ hN (fun _ => hE _ rfl rfl (by simp))
   rel m g Q E hc hQ hE :=
-    rwLeaf_rel n x m Q E g hc.pos hQ (fun _ => hE _ rfl rfl (by simp))
+    rwLeaf_rel n ro x m Q E g hc.pos hQ (fun _ => hE _ rfl rfl (by simp))
 
-theorem isLock_mutexLeaf (x : LockId) : IsLock n (mutexLeaf x) (fun _ => [(x, .excl)]) where
-  acq _ g Q E hb hQ hE := (isLock_rwLeaf (n := n) x).acq .excl g Q E hb hQ hE
-  try_ _ g Q E hQ hN hE := (isLock_rwLeaf (n := n) x).try_ .excl g Q E hQ hN hE
-  rel _ g Q E hc hQ hE := (isLock_rwLeaf (n := n) x).rel .excl g Q E hc hQ hE
+theorem isLock_mutexLeaf (x : LockId) : IsLock n ro (mutexLeaf x) (fun _ => [(x, .excl)]) where
+  acq _ g Q E hb hl hQ hE := (isLock_rwLeaf (n := n) (ro := ro) x).acq .excl g Q E hb hl hQ hE
+  try_ _ g Q E hQ hN hE := (isLock_rwLeaf (n := n) (ro := ro) x).try_ .excl g Q E hQ hN hE
+  rel _ g Q E hc hQ hE := (isLock_rwLeaf (n := n) (ro := ro) x).rel .excl g Q E hc hQ hE
 
 /-- members: trait objects paired with their footprints -/
 abbrev Members := List (RawLockM × FpFun)
 
 def Members.locks (ms : Members) : List RawLockM := ms.map (·.1)
 def Members.fp (ms : Members) : FpFun := fun m => ms.flatMap (fun p => p.2 m)
-def Members.Ok (n : Nat) (ms : Members) : Prop := ∀ p ∈ ms, IsLock n p.1 p.2
+def Members.Ok (n : Nat) (ro : RankOpt) (ms : Members) : Prop := ∀ p ∈ ms, IsLock n ro p.1 p.2
+
+/-- the members' footprints are rank-increasing along the list (no obligation without a rank) -/
+def Members.Chain (ro : RankOpt) (ms : Members) (m : Mode) : Prop :=
+  ms.Pairwise fun p q => FpBelow ro (p.2 m) (q.2 m)
 
 @[simp] theorem Members.fp_nil (m : Mode) : Members.fp [] m = [] := rfl
 @[simp] theorem Members.fp_cons (p : RawLockM × FpFun) (ms : Members) (m : Mode) :
@@ -68,22 +72,22 @@ theorem Members.fp_append (a b : Members) (m : Mode) :
 theorem Members.locks_take (ms : Members) (k : Nat) :
     Members.locks (ms.take k) = (Members.locks ms).take k := by
   simp [Members.locks, List.map_take]
-theorem Members.Ok.tail {p} {ms : Members} (h : Members.Ok n (p :: ms)) : Members.Ok n ms :=
+theorem Members.Ok.tail {p} {ms : Members} (h : Members.Ok n ro (p :: ms)) : Members.Ok n ro ms :=
   fun q hq => h q (List.mem_cons_of_mem _ hq)
-theorem Members.Ok.head {p} {ms : Members} (h : Members.Ok n (p :: ms)) : IsLock n p.1 p.2 :=
+theorem Members.Ok.head {p} {ms : Members} (h : Members.Ok n ro (p :: ms)) : IsLock n ro p.1 p.2 :=
   h p (List.mem_cons_self)
-theorem Members.Ok.take {ms : Members} (h : Members.Ok n ms) (k : Nat) : Members.Ok n (ms.take k) :=
+theorem Members.Ok.take {ms : Members} (h : Members.Ok n ro ms) (k : Nat) : Members.Ok n ro (ms.take k) :=
   fun q hq => h q (List.mem_of_mem_take hq)
 
 /-! ### `unlock_all_*` -/
 
-theorem unlockAllFrom_spec (ms : Members) (hm : ms.Ok n) (m : Mode) (pend : Bool) (g : HG)
+theorem unlockAllFrom_spec (ms : Members) (hm : ms.Ok n ro) (m : Mode) (pend : Bool) (g : HG)
     (Q : Unit → HG → Prop) (E : Unit → HG → Prop)
     (hc : g.held.Covers (ms.fp m))
     (hQ : pend = false → Q () { g with held := g.held.minus (ms.fp m) })
     (hE : ∀ g' : HG, g'.held = g.held.minus (ms.fp m) → g'.depth = g.depth →
       ((pend = true ∧ g.panics ≤ g'.panics) ∨ g.panics < g'.panics) → E () g') :
-    wp (HoldSpec n) (unlockAllFrom m ms.locks pend) Q E g := by
+    wp (HoldSpec n ro) (unlockAllFrom m ms.locks pend) Q E g := by
   induction ms generalizing g pend with
   | nil =>
     cases pend
@@ -114,13 +118,13 @@ theorem unlockAllFrom_spec (ms : Members) (hm : ms.Ok n) (m : Mode) (pend : Bool
           rcases h3' with ⟨_, h⟩ | h <;> omega
         · simp [h1', h1, Members.fp_cons, Held.minus_append]
 
-theorem unlockAll_spec (ms : Members) (hm : ms.Ok n) (m : Mode) (g : HG)
+theorem unlockAll_spec (ms : Members) (hm : ms.Ok n ro) (m : Mode) (g : HG)
     (Q : Unit → HG → Prop) (E : Unit → HG → Prop)
     (hc : g.held.Covers (ms.fp m))
     (hQ : Q () { g with held := g.held.minus (ms.fp m) })
     (hE : ∀ g' : HG, g'.held = g.held.minus (ms.fp m) → g'.depth = g.depth →
       g.panics < g'.panics → E () g') :
-    wp (HoldSpec n) (unlockAll m ms.locks) Q E g := by
+    wp (HoldSpec n ro) (unlockAll m ms.locks) Q E g := by
   apply unlockAllFrom_spec ms hm m false g Q E hc (fun _ => hQ)
   intro g' h1 h2 h3
   rcases h3 with ⟨h, _⟩ | h
@@ -129,21 +133,30 @@ theorem unlockAll_spec (ms : Members) (hm : ms.Ok n) (m : Mode) (g : HG)
 
 /-! ### `ordered_write/read` -/
 
-theorem orderedAcqBody_spec (ms : Members) (hm : ms.Ok n) (m : Mode) (locked : Nat) (g : HG)
+theorem orderedAcqBody_spec (ms : Members) (hm : ms.Ok n ro) (m : Mode) (locked : Nat) (g : HG)
     (Q : Unit → HG → Prop) (E : Nat → HG → Prop)
-    (hb : g.depth = 0)
+    (hb : g.depth = 0) (hch : Members.Chain ro ms m) (hlow : LowFp ro g.held (ms.fp m))
     (hQ : Q () { g with held := g.held.plus (ms.fp m) })
     (hE : ∀ (j : Nat) (g' : HG), j ≤ ms.length →
       g'.held = g.held.plus (Members.fp (ms.take j) m) → g'.depth = g.depth →
       g.panics < g'.panics → E (locked + j) g') :
-    wp (HoldSpec n) (orderedAcqBody m ms.locks locked) Q E g := by
+    wp (HoldSpec n ro) (orderedAcqBody m ms.locks locked) Q E g := by
   induction ms generalizing g locked with
   | nil => simpa [orderedAcqBody, Held.plus_nil] using hQ
   | cons p ms ih =>
     simp only [Members.locks_cons, orderedAcqBody]
     rw [wp_call]
-    apply hm.head.acq m g _ _ hb
-    · refine ih hm.tail (locked + 1) { g with held := g.held.plus (p.2 m) } hb ?_ ?_
+    have hch' := List.pairwise_cons.1 hch
+    apply hm.head.acq m g _ _ hb (hlow.mono (by intro k hk; simp [Members.fp_cons, hk]))
+    · refine ih hm.tail (locked + 1) { g with held := g.held.plus (p.2 m) } hb hch'.2 ?_ ?_ ?_
+      · apply LowFp.plus (hlow.mono (by intro k hk; simp [Members.fp_cons, hk]))
+        cases ro with
+        | none => trivial
+        | some rank =>
+          intro x hx y hy
+          simp only [Members.fp, List.mem_flatMap] at hy
+          obtain ⟨q, hq, hyq⟩ := hy
+          exact hch'.1 q hq x hx y hyq
       · simpa [Members.fp_cons, Held.plus_append] using hQ
       · intro j g' hj h1 h2 h3
         have := hE (j + 1) g' (by simpa using hj)
@@ -153,11 +166,11 @@ theorem orderedAcqBody_spec (ms : Members) (hm : ms.Ok n) (m : Mode) (locked : N
       simpa using hE 0 g' (Nat.zero_le _) (by simp [h1, Held.plus_nil]) h2 h3
 
 /-- after a failed or panicked acquisition of a prefix, `recover` brings the holds back -/
-theorem recover_prefix (ms : Members) (hm : ms.Ok n) (m : Mode) (c : Nat) (h₀ : Held) (g' : HG)
+theorem recover_prefix (ms : Members) (hm : ms.Ok n ro) (m : Mode) (c : Nat) (h₀ : Held) (g' : HG)
     (E : Unit → HG → Prop) (p₀ : Nat)
     (h1 : g'.held = h₀.plus (Members.fp (ms.take c) m)) (h3 : p₀ < g'.panics)
     (hE : ∀ g'' : HG, g''.held = h₀ → g''.depth = g'.depth → p₀ < g''.panics → E () g'') :
-    wp (HoldSpec n) (recover m (List.take c ms.locks)) (fun _ g'' => E () g'') (fun _ g'' => E () g'') g' := by
+    wp (HoldSpec n ro) (recover m (List.take c ms.locks)) (fun _ g'' => E () g'') (fun _ g'' => E () g'') g' := by
   simp only [recover]
   rw [← Members.locks_take]
   have hcov : g'.held.Covers (Members.fp (ms.take c) m) := by rw [h1]; exact Held.covers_plus _ _
@@ -169,15 +182,15 @@ theorem recover_prefix (ms : Members) (hm : ms.Ok n) (m : Mode) (c : Nat) (h₀ 
     refine hE g'' ?_ h2' (by omega)
     rw [h1', h1, Held.minus_plus]
 
-theorem isLock_ordered_acq (ms : Members) (hm : ms.Ok n) (m : Mode) (g : HG)
+theorem isLock_ordered_acq (ms : Members) (hm : ms.Ok n ro) (m : Mode) (g : HG)
     (Q : Unit → HG → Prop) (E : Unit → HG → Prop)
-    (hb : g.depth = 0)
+    (hb : g.depth = 0) (hch : Members.Chain ro ms m) (hlow : LowFp ro g.held (ms.fp m))
     (hQ : Q () { g with held := g.held.plus (ms.fp m) })
     (hE : ∀ g' : HG, g'.held = g.held → g'.depth = g.depth → g.panics < g'.panics → E () g') :
-    wp (HoldSpec n) (orderedAcq m ms.locks) Q E g := by
+    wp (HoldSpec n ro) (orderedAcq m ms.locks) Q E g := by
   unfold orderedAcq
   rw [wp_handle]
-  apply orderedAcqBody_spec ms hm m 0 g _ _ hb hQ
+  apply orderedAcqBody_spec ms hm m 0 g _ _ hb hch hlow hQ
   intro j g' hj h1 h2 h3
   simp only [Nat.zero_add]
   apply recover_prefix ms hm m j g.held g' E g.panics h1 h3
@@ -186,7 +199,7 @@ theorem isLock_ordered_acq (ms : Members) (hm : ms.Ok n) (m : Mode) (g : HG)
 
 /-! ### `ordered_try_write/read` (and the retrying collection's `raw_try_*`, same shape) -/
 
-theorem orderedTryBody_spec (ms₁ ms₂ : Members) (hm : Members.Ok n (ms₁ ++ ms₂)) (m : Mode)
+theorem orderedTryBody_spec (ms₁ ms₂ : Members) (hm : Members.Ok n ro (ms₁ ++ ms₂)) (m : Mode)
     (h₀ : Held) (g : HG) (Q : Bool → HG → Prop) (E : Nat → HG → Prop)
     (hg : g.held = h₀.plus (Members.fp ms₁ m))
     (hQt : Q true { g with held := h₀.plus (Members.fp (ms₁ ++ ms₂) m) })
@@ -194,7 +207,7 @@ theorem orderedTryBody_spec (ms₁ ms₂ : Members) (hm : Members.Ok n (ms₁ ++
     (hE : ∀ (c : Nat) (g' : HG), c ≤ (ms₁ ++ ms₂).length →
       g'.held = h₀.plus (Members.fp ((ms₁ ++ ms₂).take c) m) → g'.depth = g.depth →
       g.panics < g'.panics → E c g') :
-    wp (HoldSpec n)
+    wp (HoldSpec n ro)
       (orderedTryBody m (Members.locks (ms₁ ++ ms₂)) ms₂.locks ms₁.length ms₁.length) Q E g := by
   induction ms₂ generalizing ms₁ g with
   | nil =>
@@ -206,7 +219,7 @@ theorem orderedTryBody_spec (ms₁ ms₂ : Members) (hm : Members.Ok n (ms₁ ++
   | cons p ms₂ ih =>
     simp only [Members.locks_cons, orderedTryBody]
     rw [wp_call]
-    have hp : IsLock n p.1 p.2 := hm p (by simp)
+    have hp : IsLock n ro p.1 p.2 := hm p (by simp)
     apply hp.try_ m g
     · -- acquired: continue with ms₁ ++ [p]
       have hlen : (ms₁ ++ [p]).length = ms₁.length + 1 := by simp
@@ -228,7 +241,7 @@ theorem orderedTryBody_spec (ms₁ ms₂ : Members) (hm : Members.Ok n (ms₁ ++
       have htake : (Members.locks (ms₁ ++ p :: ms₂)).take ms₁.length = ms₁.locks := by
         simp [Members.locks, List.map_append]
       rw [htake]
-      have hm₁ : Members.Ok n ms₁ := fun q hq => hm q (by simp [hq])
+      have hm₁ : Members.Ok n ro ms₁ := fun q hq => hm q (by simp [hq])
       apply unlockAll_spec ms₁ hm₁ m g _ _ (by rw [hg]; exact Held.covers_plus _ _)
       · simp only [wp_done]
         have : g.held.minus (Members.fp ms₁ m) = h₀ := by rw [hg, Held.minus_plus]
@@ -241,16 +254,16 @@ theorem orderedTryBody_spec (ms₁ ms₂ : Members) (hm : Members.Ok n (ms₁ ++
       refine hE ms₁.length g' (by simp) ?_ h2 h3
       rw [h1, hg]; simp
 
-theorem isLock_ordered_try (ms : Members) (hm : ms.Ok n) (m : Mode) (g : HG)
+theorem isLock_ordered_try (ms : Members) (hm : ms.Ok n ro) (m : Mode) (g : HG)
     (Q : Bool → HG → Prop) (E : Unit → HG → Prop)
     (hQt : Q true { g with held := g.held.plus (ms.fp m) })
     (hQf : Q false g)
     (hE : ∀ g' : HG, g'.held = g.held → g'.depth = g.depth → g.panics < g'.panics → E () g') :
-    wp (HoldSpec n) (orderedTry m ms.locks) Q E g := by
+    wp (HoldSpec n ro) (orderedTry m ms.locks) Q E g := by
   unfold orderedTry
   rw [wp_handle]
-  have := orderedTryBody_spec (n := n) [] ms (by simpa using hm) m g.held g Q
-    (fun e g' => wp (HoldSpec n) (recover m (List.take e ms.locks))
+  have := orderedTryBody_spec (n := n) (ro := ro) [] ms (by simpa using hm) m g.held g Q
+    (fun e g' => wp (HoldSpec n ro) (recover m (List.take e ms.locks))
       (fun _ g'' => E () g'') (fun _ g'' => E () g'') g')
     (by simp [Held.plus_nil]) (by simpa using hQt) (by simpa using hQf)
   simp only [List.nil_append, List.length_nil] at this
@@ -260,8 +273,9 @@ theorem isLock_ordered_try (ms : Members) (hm : ms.Ok n) (m : Mode) (g : HG)
   intro g'' a b c
   exact hE g'' a (by rw [b, h2]) c
 
-theorem isLock_ordered (ms : Members) (hm : ms.Ok n) : IsLock n (orderedLock ms.locks) ms.fp where
-  acq m g Q E hb hQ hE := isLock_ordered_acq ms hm m g Q E hb hQ hE
+theorem isLock_ordered (ms : Members) (hm : ms.Ok n ro) (hch : ∀ m, Members.Chain ro ms m) :
+    IsLock n ro (orderedLock ms.locks) ms.fp where
+  acq m g Q E hb hl hQ hE := isLock_ordered_acq ms hm m g Q E hb (hch m) hl hQ hE
   try_ m g Q E hQ hN hE := isLock_ordered_try ms hm m g Q E hQ hN hE
   rel m g Q E hc hQ hE := unlockAll_spec ms hm m g Q E hc hQ hE
 
@@ -277,12 +291,12 @@ theorem retryTryBody_eq (m : Mode) (all ls : List RawLockM) (i locked : Nat) :
     funext b
     cases b <;> simp [ih]
 
-theorem isLock_retry_try (ms : Members) (hm : ms.Ok n) (m : Mode) (g : HG)
+theorem isLock_retry_try (ms : Members) (hm : ms.Ok n ro) (m : Mode) (g : HG)
     (Q : Bool → HG → Prop) (E : Unit → HG → Prop)
     (hQt : Q true { g with held := g.held.plus (ms.fp m) })
     (hQf : Q false g)
     (hE : ∀ g' : HG, g'.held = g.held → g'.depth = g.depth → g.panics < g'.panics → E () g') :
-    wp (HoldSpec n) (retryTry m ms.locks) Q E g := by
+    wp (HoldSpec n ro) (retryTry m ms.locks) Q E g := by
   unfold retryTry
   split
   · -- empty collection: `return true`
@@ -320,15 +334,15 @@ theorem retryCatch_eq (m : Mode) (ms : Members) (c : RetryCells) :
   · simp [h, Members.locks, List.map_take]
 
 /-- the handler's belief is released, whatever happens -/
-theorem retryCatch_spec (ms : Members) (hm : ms.Ok n) (m : Mode) (c : RetryCells) (h₀ : Held)
+theorem retryCatch_spec (ms : Members) (hm : ms.Ok n ro) (m : Mode) (c : RetryCells) (h₀ : Held)
     (g' : HG) (E : Unit → HG → Prop) (p₀ : Nat)
     (hfi : c.firstIndex < ms.length)
     (h1 : g'.held = h₀.plus (Members.fp (retryHeld ms c) m)) (h3 : p₀ < g'.panics)
     (hE : ∀ g'' : HG, g''.held = h₀ → g''.depth = g'.depth → p₀ < g''.panics → E () g'') :
-    wp (HoldSpec n) (retryCatch m ms.locks c) (fun _ g'' => E () g'') (fun _ g'' => E () g'') g' := by
+    wp (HoldSpec n ro) (retryCatch m ms.locks c) (fun _ g'' => E () g'') (fun _ g'' => E () g'') g' := by
   rw [retryCatch_eq]
   simp only [recover]
-  have hok : Members.Ok n (retryHeld ms c) := by
+  have hok : Members.Ok n ro (retryHeld ms c) := by
     intro q hq
     simp only [retryHeld, List.mem_append] at hq
     rcases hq with hq | hq
@@ -365,7 +379,7 @@ theorem retryHeld_at (all : Members) (c : RetryCells) (i : Nat) (m : Mode)
       exact List.take_append_getElem hfi
     rw [this]; simp [hlt]
 
-theorem retryInner_spec (pre suf : Members) (hm : Members.Ok n (pre ++ suf)) (m : Mode) (h₀ : Held)
+theorem retryInner_spec (pre suf : Members) (hm : Members.Ok n ro (pre ++ suf)) (m : Mode) (h₀ : Held)
     (c : RetryCells) (g : HG) (Q : Option Nat → HG → Prop) (E : RetryCells → HG → Prop)
     (hfi : c.firstIndex < (pre ++ suf).length)
     (hfl : c.firstLocked = true)
@@ -376,7 +390,7 @@ theorem retryInner_spec (pre suf : Members) (hm : Members.Ok n (pre ++ suf)) (m 
     (hE : ∀ (c' : RetryCells) (g' : HG), c'.firstIndex < (pre ++ suf).length →
        g'.held = h₀.plus (Members.fp (retryHeld (pre ++ suf) c') m) → g'.depth = g.depth →
        g.panics < g'.panics → E c' g') :
-    wp (HoldSpec n) (retryInner m (Members.locks (pre ++ suf)) suf.locks pre.length c) Q E g := by
+    wp (HoldSpec n ro) (retryInner m (Members.locks (pre ++ suf)) suf.locks pre.length c) Q E g := by
   induction suf generalizing pre c g with
   | nil =>
     simp only [Members.locks_nil, retryInner, wp_done]
@@ -406,7 +420,7 @@ theorem retryInner_spec (pre suf : Members) (hm : Members.Ok n (pre ++ suf)) (m 
       rcases hlk with h | ⟨h1, h2⟩ <;> omega
     · rename_i hi
       rw [wp_call]
-      have hp : IsLock n p.1 p.2 := hm p (by simp)
+      have hp : IsLock n ro p.1 p.2 := hm p (by simp)
       apply hp.try_ m g
       · -- acquired
         simp only [if_true]
@@ -434,7 +448,7 @@ theorem retryInner_spec (pre suf : Members) (hm : Members.Ok n (pre ++ suf)) (m 
           simp [Members.locks, List.map_append]
         simp only [recover]
         rw [htakeL]
-        have hm₁ : Members.Ok n pre := fun q hq => hm q (by simp [hq])
+        have hm₁ : Members.Ok n ro pre := fun q hq => hm q (by simp [hq])
         have hcov : g.held.Covers (Members.fp pre m) := by
           rw [hg, hest]; exact Held.covers_plus_append_left _ _ _
         have hafter : g.held.minus (Members.fp pre m) =
@@ -450,7 +464,7 @@ theorem retryInner_spec (pre suf : Members) (hm : Members.Ok n (pre ++ suf)) (m 
           · -- the blocking-locked member is still held: release it too
             simp only [hge, decide_true, if_true]
             rw [wp_call, Members.locks_getD]
-            have hq : IsLock n ((pre ++ p :: suf).getD c.firstIndex default).1
+            have hq : IsLock n ro ((pre ++ p :: suf).getD c.firstIndex default).1
                 ((pre ++ p :: suf).getD c.firstIndex default).2 :=
               hm _ (Members.getD_mem _ _ hfi)
             simp only [hge, if_true, Members.fp_cons, Members.fp_nil, List.append_nil] at hafter
@@ -480,31 +494,36 @@ theorem retryInner_spec (pre suf : Members) (hm : Members.Ok n (pre ++ suf)) (m 
         intro g' h1 h2 h3
         exact hE c g' hfi (by rw [h1, hg]) h2 h3
 
-theorem retryOuter_spec (all : Members) (hm : all.Ok n) (m : Mode) (h₀ : Held) (fuel : Nat)
+theorem retryOuter_spec (all : Members) (hm : all.Ok n ro) (m : Mode) (h₀ : Held) (fuel : Nat)
     (c : RetryCells) (g : HG) (Q : Unit → HG → Prop) (E : RetryCells → HG → Prop)
-    (hb : g.depth = 0)
+    (hb : g.depth = 0) (hlow : LowFp ro h₀ (all.fp m))
     (hfi : c.firstIndex < all.length) (hfl : c.firstLocked = false) (hlk : c.locked = 0)
     (hg : g.held = h₀)
     (hQ : Q () { g with held := h₀.plus (all.fp m) })
     (hE : ∀ (c' : RetryCells) (g' : HG), c'.firstIndex < all.length →
        g'.held = h₀.plus (Members.fp (retryHeld all c') m) → g'.depth = g.depth →
        g.panics < g'.panics → E c' g') :
-    wp (HoldSpec n) (retryOuter m all.locks fuel c) Q E g := by
+    wp (HoldSpec n ro) (retryOuter m all.locks fuel c) Q E g := by
   induction fuel generalizing c g with
   | zero => simp [retryOuter]
   | succ fuel ih =>
     simp only [retryOuter]
     rw [wp_call, Members.locks_getD]
-    have hq : IsLock n (all.getD c.firstIndex default).1 (all.getD c.firstIndex default).2 :=
+    have hq : IsLock n ro (all.getD c.firstIndex default).1 (all.getD c.firstIndex default).2 :=
       hm _ (Members.getD_mem _ _ hfi)
-    apply hq.acq m g _ _ hb
+    have hmem := Members.getD_mem all c.firstIndex hfi
+    apply hq.acq m g _ _ hb (by
+      rw [hg]
+      exact hlow.mono (fun k hk => by
+        simp only [Members.fp, List.mem_flatMap]
+        exact ⟨_, hmem, hk⟩))
     · -- the blocking acquisition returned: try all the others
       rw [wp_bind]
       have h1 : retryHeld all { c with firstLocked := true } = [all.getD c.firstIndex default] := by
         simp [retryHeld, hlk]
-      have := retryInner_spec (n := n) [] all (by simpa using hm) m h₀ { c with firstLocked := true }
+      have := retryInner_spec (n := n) (ro := ro) [] all (by simpa using hm) m h₀ { c with firstLocked := true }
         { g with held := g.held.plus ((all.getD c.firstIndex default).2 m) }
-        (fun r g' => wp (HoldSpec n)
+        (fun r g' => wp (HoldSpec n ro)
           (match r with
             | none => Prog.done ()
             | some i => retryOuter m all.locks fuel { firstIndex := i, firstLocked := false, locked := 0 })
@@ -527,12 +546,12 @@ theorem retryOuter_spec (all : Members) (hm : all.Ok n) (m : Mode) (h₀ : Held)
       rw [h1, hg]
       simp [retryHeld, hfl, hlk, Held.plus_nil]
 
-theorem isLock_retry_acq (fuel : Nat) (ms : Members) (hm : ms.Ok n) (m : Mode) (g : HG)
+theorem isLock_retry_acq (fuel : Nat) (ms : Members) (hm : ms.Ok n ro) (m : Mode) (g : HG)
     (Q : Unit → HG → Prop) (E : Unit → HG → Prop)
-    (hb : g.depth = 0)
+    (hb : g.depth = 0) (hlow : LowFp ro g.held (ms.fp m))
     (hQ : Q () { g with held := g.held.plus (ms.fp m) })
     (hE : ∀ g' : HG, g'.held = g.held → g'.depth = g.depth → g.panics < g'.panics → E () g') :
-    wp (HoldSpec n) (retryAcq m fuel ms.locks) Q E g := by
+    wp (HoldSpec n ro) (retryAcq m fuel ms.locks) Q E g := by
   unfold retryAcq
   split
   · rename_i he
@@ -548,15 +567,15 @@ theorem isLock_retry_acq (fuel : Nat) (ms : Members) (hm : ms.Ok n) (m : Mode) (
       | nil => simp [Members.locks] at he
       | cons p ms => simp
     rw [wp_handle]
-    apply retryOuter_spec ms hm m g.held fuel {} g _ _ hb hne rfl rfl rfl hQ
+    apply retryOuter_spec ms hm m g.held fuel {} g _ _ hb hlow hne rfl rfl rfl hQ
     intro c' g' hfi h1 h2 h3
     apply retryCatch_spec ms hm m c' g.held g' E g.panics hfi h1 h3
     intro g'' a b c
     exact hE g'' a (by rw [b, h2]) c
 
-theorem isLock_retry (fuel : Nat) (ms : Members) (hm : ms.Ok n) :
-    IsLock n (retryLock fuel ms.locks) ms.fp where
-  acq m g Q E hb hQ hE := isLock_retry_acq fuel ms hm m g Q E hb hQ hE
+theorem isLock_retry (fuel : Nat) (ms : Members) (hm : ms.Ok n ro) :
+    IsLock n ro (retryLock fuel ms.locks) ms.fp where
+  acq m g Q E hb hl hQ hE := isLock_retry_acq fuel ms hm m g Q E hb hl hQ hE
   try_ m g Q E hQ hN hE := isLock_retry_try ms hm m g Q E hQ hN hE
   rel m g Q E hc hQ hE := unlockAll_spec ms hm m g Q E hc hQ hE
 
